@@ -63,13 +63,17 @@ def run(tier, seed):
             valid_sets.append((kind, dict(b, convergence_test="max_diff", gamma=0.01, epsilon=2.0)))       # threshold 198
         if kind == "pi":
             valid_sets.append((kind, dict(b, max_eval_iter=1)))
+        if kind == "pi":
+            valid_sets.append((kind, dict(b, reset_values_for_each_policy_eval=True, max_eval_iter=2)))
+        if kind == "periodic":
+            valid_sets.append((kind, dict(b, clear_value_history_on_convergence=False, period=3)))
         if kind == "semi":
             # the seed must reach the generator by every route: shuffled sweeps over several batches, seeds other than the default
             valid_sets.append((kind, dict(b, shuffle_states=True, random_seed=7, max_batch_size=2)))
             valid_sets.append((kind, dict(b, shuffle_states=True, random_seed=0, max_batch_size=1)))
     if tier == "quick":
         rng.shuffle(valid_sets)
-        keep = [v for v in valid_sets if "convergence_test" in v[1] or "shuffle_states" in v[1]] + [v for v in valid_sets if v[1].get("gamma") in (0.0, 1.0) or v[1].get("epsilon", 0) >= 100][:30] + valid_sets[:20]
+        keep = [v for v in valid_sets if "convergence_test" in v[1] or "shuffle_states" in v[1] or "reset_values_for_each_policy_eval" in v[1] or "clear_value_history_on_convergence" in v[1]] + [v for v in valid_sets if v[1].get("gamma") in (0.0, 1.0) or v[1].get("epsilon", 0) >= 100][:30] + valid_sets[:20]
         valid_sets = keep
     for kind, p in valid_sets:
         for route in ("kwargs", "config", "yaml"):
@@ -253,7 +257,7 @@ def run(tier, seed):
     res.count("distinct-formats", len(seen_fmt))
     # the routes behave identically
     for key, routes in by_set.items():
-        vals = {r: (d["iter"], d["values"], d["policy"], d["thr"]) for r, (d, _) in routes.items()}
+        vals = {r: (d["iter"], d["values"], d["policy"], d["thr"], d.get("attrs")) for r, (d, _) in routes.items()}
         if len(set(vals.values())) > 1:
             res.disagreements.append({"channel": "C20/routes-differ", "case": {"solver": key[0], "params": key[1], "problem": key[2]}, "model": "", "impl": str(vals)[:500], "failing_input": True,
                                       "what": "the construction routes give different results", "key": "routes-differ"})
